@@ -3,7 +3,10 @@
 model:    spec/SpinePaths.tla used as the RECOGNISER of well-formed Humdrum: an excerpt is well-formed iff its lines are a behaviour
           of the row machine (header line first, cell count per line consistent with the spine operators) ending in status
           "closed" (every spine terminated); Governing = the sig pointers of the excerpt's state
-MC:       MC_SpinePaths (LivePathsMatch, GoverningSigOK, ClosedMeansNoLive, ParentOnSamePath): the recogniser itself
+MC:       MC_SpinePaths (LivePathsMatch, GoverningSigOK, ClosedMeansNoLive, ParentOnSamePath): the recogniser itself;
+          MC_Excerpt: every core score of a bounded instance x every measure range: the REFERENCE excerpt (header line for the live
+          spines, one line per signature class in force, body, terminator line) is fed to the SAME Header/Row actions: NeverStuck,
+          EndsClosed, SameGoverning - the requirement is satisfiable and this is what an excerpt has to look like
 binding:  every measure-range export of generated **kern scores is lexed by an independent lexer (prefixes ** *^ *v *- *clef *k[ *M
           *met = ! .) and fed, line by line, to the row machine by TLC (Trace_Session x-events); TLC also compares the governing
           clef / key / time signature of every note of the excerpt with what the generator's own column tracker computed for the
@@ -136,6 +139,9 @@ def main():
                 'do not start at measure 1 or whose score has a split')
     run.note('explored_classes', ['midscore_sig', 'unequal_sig_kinds', 'start_inside_split', 'nonkern_in_document'])
     run.add_tlc(tlc.run_tlc('MC_SpinePaths', 'MC_SpinePaths_c08.cfg', workers=16, timeout=3000, label='MC_SpinePaths(recogniser invariants)'))
+    # the requirement is satisfiable: the REFERENCE excerpt of every core score of the bounded instance is recognised by the same machine
+    run.add_tlc(tlc.run_tlc('MC_Excerpt', 'MC_Excerpt_q.cfg' if quick else 'MC_Excerpt_t.cfg', workers=16, timeout=5000,
+                            label='MC_Excerpt(NeverStuck, EndsClosed, SameGoverning)'))
     pops = [('core', 140 if quick else 2500), ('explored', 60 if quick else 800), ('nonkern', 40 if quick else 500)]
     sess = []
     if a.replay_case:
